@@ -335,18 +335,31 @@ fn superset_check(out: &mut Out, r: &mut Rng, f: &NetworkFilter, raw: &str, rule
         format!("{}#{}", pat, pat),
         format!("https://{}", pat),
         format!("{}", pat.trim_start_matches('/')),
+        // user information before the host (the request's host is what follows the last `@` of the authority)
+        format!("https://user@{}{}", host, body),
+        format!("https://u:p@sub.{}{}", host, body),
+        // a backslash ends the authority of http(s) URLs like a slash does: what follows is path, whatever it looks like
+        format!("https://a.com\\@{}{}", host, body),
+        format!("https://a.com\\x@{}/ad.png", host),
     ];
     for u in cands {
         for ty in ["script", "image", "sub_frame", "xhr"] {
             for src in ["https://page.example/", "https://sub.site.example/"] {
                 if let Some(q) = make_req(&u, src, ty) {
-                    if q.req.url.contains('@') || q.req.hostname.is_empty() {
+                    if q.req.hostname.is_empty() {
+                        continue;
+                    }
+                    // the request is read by the crate's URL scanner: its reading is compared with the model's
+                    crate::c12::emit_url_case(out, &u);
+                    let authority = q.req.url.split("://").nth(1).unwrap_or("").split(|c| c == '/' || c == '?' || c == '#').next().unwrap_or("");
+                    let class = if authority.contains('@') { Some("url_with_user_information") } else { None };
+                    if class.is_none() && q.req.url.contains('@') && !u.contains('\\') {
                         continue;
                     }
                     if pr.matches(&q.req) {
                         out.bump("superset_urls_checked");
                         if !re.is_match(&q.req.url) {
-                            out.fail("emitted-pattern-misses-a-url-the-rule-matches", None, json!({"rule": raw, "url_filter": uf, "url": q.req.url, "type": ty, "source": src}));
+                            out.fail("emitted-pattern-misses-a-url-the-rule-matches", class, json!({"rule": raw, "url_filter": uf, "url": q.req.url, "type": ty, "source": src}));
                         }
                         break;
                     }
